@@ -38,6 +38,10 @@ def check(case, res):
         if op[0] != 'tick' and s['main_secs'] != prev['main_secs']:
             bad.append(('main_secs', 'thread_stack_restored', i,
                         'op %d %s changed the logical time of the main thread' % (i, op)))
+        rq = [e[1] for e in s['queue']]
+        if len(rq) != len(set(rq)):
+            bad.append(('one_pending', 'one_pending_wakeup_per_routine', i,
+                        'after op %d %s a routine has two pending wake-ups: %s' % (i, op, s['queue'])))
         if any(x == 1 for x in s['states']):
             bad.append(('running_outside', 'thread_stack_restored', i,
                         'after op %d %s a routine is still Running' % (i, op)))
@@ -83,10 +87,16 @@ def check(case, res):
                 pw = prev['cells'][cc]['waiting']
                 fire = k == 'unhang' or prev['cells'][cc]['test']
                 if fire:
-                    if s['cells'][cc]['waiting'] or len(s['queue']) != len(prev['queue']) + len(pw):
+                    # one pending wake-up per routine: every routine that was waiting has exactly one
+                    # entry afterwards (also if it already had one), the others keep what they had
+                    def pend(q, r): return sum(1 for e in q if e[1] == r)
+                    others = set(e[1] for e in prev['queue']) | set(e[1] for e in s['queue'])
+                    wrong = [r for r in set(pw) if pend(s['queue'], r) != 1] + \
+                            [r for r in others - set(pw) if pend(s['queue'], r) != pend(prev['queue'], r)]
+                    if s['cells'][cc]['waiting'] or wrong:
                         bad.append(('signal_once', 'cond_resume_exactly_once_after_signal', i,
-                                    'op %d %s with %d waiting: %d wake-ups queued, %d still waiting' % (
-                                        i, op, len(pw), len(s['queue']) - len(prev['queue']), len(s['cells'][cc]['waiting']))))
+                                    'op %d %s with waiting %s: queue %s -> %s, still waiting %s' % (
+                                        i, op, pw, prev['queue'], s['queue'], s['cells'][cc]['waiting'])))
                 elif s['cells'][cc]['waiting'] != pw or s['queue'] != prev['queue']:
                     bad.append(('signal_before', 'cond_never_before', i,
                                 'op %d %s while the test is false changed the waiting list or queued a wake-up' % (i, op)))
